@@ -140,7 +140,7 @@ impl Report {
         let entry = self.new_hits.entry(key.to_string()).or_insert((0, Vec::new()));
         entry.0 += 1;
         if entry.1.len() < 3 && !self.replay_mode {
-            let dir = root().join("replays");
+            let dir = std::env::var_os("VERIF_REPLAY_DIR").map_or_else(|| root().join("replays"), PathBuf::from);
             _ = fs::create_dir_all(&dir);
             let safe: String = key
                 .chars()
@@ -210,7 +210,7 @@ impl Report {
             "wall_s": wall,
             "violations": violations,
         });
-        if !self.replay_mode {
+        if !self.replay_mode && std::env::var_os("VERIF_NO_EVIDENCE").is_none() {
             let dir = root().join("evidence");
             _ = fs::create_dir_all(&dir);
             fs::write(
